@@ -389,6 +389,7 @@ PrefixSpace g_prefix, g_prefixq; TokenSpace g_token, g_tokenq;
 std::vector<std::string> plan_of(const std::string& kind, uint64_t seed, uint64_t idx, std::string* mode)
 {
    if (kind == "RUNS") return gen_plan(g_corpus, sim::run_seed(seed, ENGINE_ID, idx), mode);
+   if (kind == "LIGHT") return gen_plan(g_corpus, sim::run_seed(seed, ENGINE_ID + 1000, idx), mode, true);
    if (mode) *mode = kind;
    if (kind == "PREFIX") return g_prefix.plan(idx);
    if (kind == "PREFIXQ") return g_prefixq.plan(idx);
@@ -424,8 +425,9 @@ int main(int argc, char** argv)
    while (sim::read_line(line)) {
       const auto t = sim::split(line);
       if (t.empty()) continue;
-      if (t[0] == "RUNS" || t[0] == "PREFIX" || t[0] == "PREFIXQ" || t[0] == "TOKEN" || t[0] == "TOKENQ" || t[0] == "CORPUS") {
-         const bool rnd = t[0] == "RUNS";
+      if (t[0] == "RUNS" || t[0] == "LIGHT" || t[0] == "PREFIX" || t[0] == "PREFIXQ" || t[0] == "TOKEN" || t[0] == "TOKENQ" || t[0] == "CORPUS") {
+         const bool rnd = t[0] == "RUNS" || t[0] == "LIGHT";
+         if (t.size() < (rnd ? 4u : 3u)) { std::printf("NOTE malformed command: %s\nDONE\n", line.c_str()); continue; }
          const uint64_t seed = rnd ? std::strtoull(t[1].c_str(), nullptr, 0) : 0;
          const uint64_t first = std::strtoull(t[rnd ? 2 : 1].c_str(), nullptr, 0), count = std::strtoull(t[rnd ? 3 : 2].c_str(), nullptr, 0);
          sim::Stats st; std::map<std::string, uint64_t> classes;
